@@ -94,6 +94,7 @@ fn main() {
                 "sentences" => record::record_sentences(n, seed, &mut out),
                 "histories" => record::record_histories(n, seed, &mut out),
                 "serde" => record::record_serde(n, seed, &mut out),
+                "gencases" => record::record_gencases(n, seed, &mut out),
                 "normalise" => tantivy_drv::record_normalise(n, seed, &mut out),
                 "tantivy" => tantivy_drv::record_tantivy(n, seed, &mut out),
                 _ => {
